@@ -404,3 +404,7 @@ CLAIMS["C20"]["text"] += (" The swarm-level part also draws public UDP/IPv6 addr
 CLAIMS["C06"]["text"] += (" TestUpgradedConnKeepsLimitedFlag covers the stretch before the swarm: connections built by the repository's own upgrader (private-network wrapping on or off, Noise or TLS, yamux) out of raw connections that say whether they are limited (as the relay client's do), dialled through a real swarm with and without a metrics tracer: Stat().Limited on both ends, ConnsToPeer, Connectedness, the published event and NewStream without WithAllowLimitedConn must follow what the raw connection said.")
 CLAIMS["C15"]["text"] += (" Read-only queries (Bus.GetAllEventTypes, Subscription.Name/Out) are generated as concurrent operations at every instant, including next to Subscribe / Close / Emitter calls while an Emit stays stalled on a slow subscriber, and enumerated during every basic stall shape, alone and racing the Close / creation of an unrelated type: each query must have returned at the next quiescence point and must not keep any other call from returning.")
 CLAIMS["C15"]["note"] += (" Query answers are not judged. A query is planned as a call that never waits for a subscriber, so a query that waits behind a stalled Emit freezes the bubble and is reported through the 120 s watchdog.")
+
+CLAIMS["C10"]["text"] += (" Rules are checked as values: after any Block*/Unblock* call the generated caller overwrites or re-uses the net.IP/*net.IPNet it passed, and overwrites everything ListBlocked* returned; enforcement, lists and restart state must still equal the calls that returned success. "
+    "The WebRTC-direct listener's own accept-time and post-handshake gating is driven with the real transport over loopback UDP behind an address translator that gives every attempt an arbitrary source IP (v4 as 4 or 16 bytes, or v6).")
+CLAIMS["C10"]["note"] += (" WebRTC-direct cases run in real time on loopback sockets (few cases; verdicts come from events such as a Connected notification or a recorded refusal, never from timeouts; 20 s without an event counts as inconclusive). The datastore double copies values on Put. The WebRTC dialer's InterceptSecured call site and outbound WebRTC dials are not driven.")
